@@ -58,6 +58,23 @@ def run() -> int:
             ok = ok and caught
         finally:
             shutil.rmtree(d, ignore_errors=True)
+    if not only:
+        # a recorded real run is accepted by Search.tla; with one field corrupted or one event dropped it is rejected
+        import copy  # noqa: PLC0415
+
+        from . import corpus, steptrace  # noqa: PLC0415
+
+        runs = [r for r in corpus.corpus("quick", 0) if r.get("steps") and len(r["steps"]["log"]) >= 6][:1]
+        a = copy.deepcopy(runs[0])
+        b = copy.deepcopy(runs[0])
+        c = copy.deepcopy(runs[0])
+        ev = next(e for e in b["steps"]["log"] if e["e"] == "eval" and e["h"] != b["steps"]["log"][0]["h"])
+        ev["v"] = -ev["v"] if ev["v"] else 7
+        del c["steps"]["log"][2]
+        st = [v["status"] for v in steptrace.validate([a, b, c])]
+        good = st[0] == "accepted" and st[1] != "accepted" and st[2] != "accepted"
+        print(f"SELFTEST step-trace binding (real run accepted; sign-flipped excess / dropped event not accepted): {'ok' if good else 'FAILED'} {st}")
+        ok = ok and good
     from . import p_equiv  # noqa: PLC0415
 
     good, verdicts = p_equiv.selfcheck_binding()
